@@ -17,6 +17,9 @@ R = {
  "C16-h": (8, False, "C16 T4-network-cut-flow (fresh source / sink, marked = (1,2)-orbits of cut_with_insides(min cut), special = orbit([0,1], op(3, d)) of the PARTNER face, start on the rim of the marked set)", "a cover that needs a split-and-glue cut touching the partner face, depending on the numbering: 21 of 216 symbols of size <= 5"),
  "C17-h": (8, True, "reported by T4-graph-labels, written from the mutation probe an hour earlier", "a point whose stabiliser is exactly the inversion group (label 1x): 2- and 3-sheeted covers of some size-4 euclidean symbols"),
  "C11-h": (8, True, "reported by the C12 check (expanded_relator_set is shared); the rule now also runs under C11", "a presentation with a single-letter relator"),
+ "C09-h": (8, True, "", "a mirror facet forced through a chain orbit with branching number 1 whose inner facets carry non-trivial words: 3 of 1113 2D symbols up to 7 chambers"),
+ "C15-h": (8, True, "reported by the C14 check (invariants.rs is C14 code): T4-elimination-ranges and T9-pivot", "a tall relator matrix whose rows start..m are already zero while later rows are not; depends on the numbering"),
+ "C05-h": (8, True, "the same edit as C11-h, made independently under C05; reported by the C11 / C12 checks (expanded_relator_set)", "a base symbol whose presentation keeps a redundant generator with a one-letter relator: 3D symbols of 4 chambers with a two-chamber (i,i+1)-orbit of degree 1"),
  "C07-h": (8, True, "", "a D-set automorphism that moves two orbit pairs, the first with equal values: 3 D-sets of size 6"),
 }
 for sid, (rnd, first, strength, needs) in R.items():
